@@ -83,7 +83,7 @@ def _work(job) -> Dict[str, Any]:
     return out
 
 
-def _minimise(f: Dict[str, Any]) -> Dict[str, Any]:
+def _minimise(f: Dict[str, Any], cheap: bool = False) -> Dict[str, Any]:
     kind = "raised" if f["check"] == "c01.render_raised" else "over"
 
     def fails(desc: T.Desc, hint: int) -> Optional[int]:
@@ -101,9 +101,9 @@ def _minimise(f: Dict[str, Any]) -> Dict[str, Any]:
                 return w
         return None
 
-    d, w = T.minimise(f["desc"], f["w"], fails)
+    d, w = (f["desc"], f["w"]) if cheap else T.minimise(f["desc"], f["w"], fails, max_evals=2000, max_seconds=5.0)
     r = T.build(d)
-    for w2 in range(T.smin(d), w):  # report the smallest failing width of the minimal tree
+    for w2 in ([] if cheap else range(T.smin(d), w)):  # report the smallest failing width of the minimal tree
         res = _check_one(d, r, w2)
         if res is not None and res[0] == kind:
             w = w2
@@ -159,12 +159,15 @@ def run(tier: str = "quick", seed: int = 0) -> Dict[str, Any]:
     per: Dict[str, int] = {}
     seen_keys = set()
     seen_trees = set()
+    tried: Dict[str, int] = {}
+    deadline = time.time() + (20.0 if tier == "quick" else 120.0)  # minimisation is a courtesy, not the check
     # smallest trees first: cheaper to minimise and more likely to be distinct root causes
     for f in sorted(raw, key=lambda f: (f["check"], T.node_count(f["desc"]), f["w"], f["idx"])):
-        if per.get(f["check"], 0) >= 3 or (f["check"], f["pool"], f["idx"]) in seen_trees:
+        if per.get(f["check"], 0) >= 3 or tried.get(f["check"], 0) >= 7 or (f["check"], f["pool"], f["idx"]) in seen_trees:
             continue
         seen_trees.add((f["check"], f["pool"], f["idx"]))
-        m = _minimise(f)
+        tried[f["check"]] = tried.get(f["check"], 0) + 1
+        m = _minimise(f, time.time() > deadline)
         if m["input_key"] in seen_keys:
             continue
         seen_keys.add(m["input_key"])
